@@ -70,11 +70,21 @@ def mk_layer(name, bases=(), su=0, td=0, hooks='stST', tsu=0, ttd=0, instance=Fa
     """hooks: s=setUp t=tearDown S=testSetUp T=testTearDown present."""
     def setUp(self=None):
         ev('su', name)
+        if su == 2:          # failure that carries an explicit cause
+            try:
+                raise KeyError('root cause')
+            except KeyError as e:
+                raise ValueError('su ' + name) from e
         if su:
             raise ValueError('su ' + name)
 
     def tearDown(self=None):
         ev('td', name)
+        if td == 3:          # failure that carries an explicit cause
+            try:
+                raise KeyError('root cause')
+            except KeyError as e:
+                raise ValueError('td ' + name) from e
         if td == 1:
             raise ValueError('td ' + name)
         if td == 2:
